@@ -35,11 +35,11 @@ import (
 	"unsafe"
 
 	"github.com/c2h5oh/datasize"
+	"github.com/yandex/pandora/cli"
 	grpcgun "github.com/yandex/pandora/components/guns/grpc"
 	phttp "github.com/yandex/pandora/components/guns/http"
 	"github.com/yandex/pandora/components/providers/grpc/grpcjson"
 	httpconf "github.com/yandex/pandora/components/providers/http/config"
-	"github.com/yandex/pandora/cli"
 	"github.com/yandex/pandora/core/aggregator"
 	"github.com/yandex/pandora/core/aggregator/netsample"
 	"github.com/yandex/pandora/core/config"
@@ -265,7 +265,7 @@ func comps() []comp {
 		{Name: "result/phout", Section: "result", Base: map[string]any{"type": "phout", "destination": "/c17/out.phout"},
 			ConfType: reflect.TypeOf(netsample.PhoutConfig{}), Default: func() any { return netsample.DefaultPhoutConfig() },
 			Component: func(ec engine.Config) (any, error) { return ec.Pools[0].Aggregator, nil },
-			Fix: func(exp, got reflect.Value) { exp.FieldByName("Destination").SetString("/c17/out.phout") },
+			Fix:       func(exp, got reflect.Value) { exp.FieldByName("Destination").SetString("/c17/out.phout") },
 			Fields: []field{
 				fb("id", "ID", true),
 				fd("flush-time", "FlushTime", "250ms"),
@@ -276,7 +276,7 @@ func comps() []comp {
 		{Name: "result/jsonlines", Section: "result", Base: map[string]any{"type": "jsonlines", "sink": map[string]any{"type": "file", "path": "/c17/out.jsonl"}},
 			ConfType: reflect.TypeOf(aggregator.EncoderAggregatorConfig{}), Default: func() any { return aggregator.DefaultEncoderAggregatorConfig() },
 			Component: func(ec engine.Config) (any, error) { return ec.Pools[0].Aggregator, nil },
-			Fix: func(exp, got reflect.Value) { exp.FieldByName("Sink").Set(got.FieldByName("Sink")) },
+			Fix:       func(exp, got reflect.Value) { exp.FieldByName("Sink").Set(got.FieldByName("Sink")) },
 			Fields: []field{
 				fi("buffer-size", "BufferSize", 2048, 2048),
 				fd("flush-interval", "FlushInterval", "125ms"),
@@ -340,7 +340,7 @@ func comps() []comp {
 		{Name: "ammo/grpc/json", Section: "ammo", Base: map[string]any{"type": "grpc/json", "file": "/c17/ammo.grpc"},
 			ConfType: reflect.TypeOf(grpcjson.Config{}), Default: func() any { return grpcjson.Config{} },
 			Component: func(ec engine.Config) (any, error) { return ec.Pools[0].Provider, nil },
-			Fix: func(exp, got reflect.Value) { exp.FieldByName("File").SetString("/c17/ammo.grpc") },
+			Fix:       func(exp, got reflect.Value) { exp.FieldByName("File").SetString("/c17/ammo.grpc") },
 			Fields: []field{
 				fi("limit", "Limit", 5, 5, -1),
 				fi("passes", "Passes", 3, 3, -1),
@@ -351,7 +351,7 @@ func comps() []comp {
 		{Name: "ammo/json", Section: "ammo", Base: map[string]any{"type": "json", "source": map[string]any{"type": "inline", "data": "{}"}},
 			ConfType: reflect.TypeOf(provider.DecodeProviderConfig{}), Default: func() any { return provider.DefaultDecodeProviderConfig() },
 			Component: func(ec engine.Config) (any, error) { return ec.Pools[0].Provider, nil },
-			Fix: func(exp, got reflect.Value) { exp.FieldByName("Source").Set(got.FieldByName("Source")) },
+			Fix:       func(exp, got reflect.Value) { exp.FieldByName("Source").Set(got.FieldByName("Source")) },
 			Fields: []field{
 				fi("limit", "Limit", 5, 5, -1),
 				fi("passes", "Passes", 3, 3, -1),
@@ -481,6 +481,47 @@ func mustReject(res *vkit.Result, key, what string, conf map[string]any, cs any)
 		res.Count("rejected_at/"+stage, 1)
 	}
 	res.Eval(vkit.JSON(cs), true)
+}
+
+// requiredKeys: a component section without one of its documented required keys (the key is
+// simply left out, nothing else is wrong) must be rejected — also when nothing but `type` is left.
+func requiredKeys(res *vkit.Result) {
+	type rk struct {
+		section string
+		conf    map[string]any
+		what    string
+	}
+	cases := []rk{
+		{"gun", map[string]any{"type": "http"}, "http gun without target"},
+		{"gun", map[string]any{"type": "http", "ssl": false}, "http gun without target (other keys present)"},
+		{"gun", map[string]any{"type": "http2"}, "http2 gun without target"},
+		{"gun", map[string]any{"type": "connect"}, "connect gun without target"},
+		{"gun", map[string]any{"type": "http/scenario"}, "http/scenario gun without target"},
+		{"result", map[string]any{"type": "jsonlines"}, "jsonlines without sink"},
+		{"result", map[string]any{"type": "jsonlines", "sink": map[string]any{"type": "file"}}, "file sink without path"},
+		{"ammo", map[string]any{"type": "json"}, "json provider without source"},
+		{"ammo", map[string]any{"type": "json", "source": map[string]any{"type": "file"}}, "file source without path"},
+		{"ammo", map[string]any{"type": "json", "source": map[string]any{"type": "inline"}}, "inline source without data"},
+		{"rps", map[string]any{"type": "once"}, "once schedule without times (min=1)"},
+		{"rps", map[string]any{"type": "const", "ops": 5}, "const schedule without duration (min-time=1ms)"},
+		{"rps", map[string]any{"type": "line", "from": 1, "to": 2}, "line schedule without duration"},
+		{"rps", map[string]any{"type": "step", "from": 1, "to": 2, "duration": "1s"}, "step schedule without step (min=1)"},
+		{"rps", map[string]any{"type": "unlimited"}, "unlimited schedule without duration"},
+		{"startup", map[string]any{"type": "instance_step", "from": 1, "to": 2, "stepduration": "1s"}, "instance_step without step (min=1)"},
+	}
+	for _, c := range cases {
+		cs := map[string]any{"section": c.section, "conf": c.conf, "kind": "required key omitted"}
+		mustReject(res, "C17/required-omitted/"+c.section+"/"+fmt.Sprint(c.conf["type"]), c.what, poolWith(c.section, clone(c.conf)), cs)
+		res.Count("required_key_omissions", 1)
+	}
+	// whole pool sections left out
+	for _, k := range []string{"ammo", "result", "gun", "rps", "startup"} {
+		p := basePool()
+		delete(p, k)
+		cs := map[string]any{"section": "pool", "omitted": k, "kind": "required key omitted"}
+		mustReject(res, "C17/required-omitted/pool/"+k, "pool without "+k, map[string]any{"pools": []any{p}}, cs)
+		res.Count("required_key_omissions", 1)
+	}
 }
 
 func wrongAndBad(res *vkit.Result, c comp, propFile string) {
@@ -689,9 +730,9 @@ func corpus(auxDir string) []map[string]any {
 	add(map[string]any{"log": map[string]any{"level": "error", "file": "stderr"},
 		"monitoring": map[string]any{"expvar": map[string]any{"enabled": false, "port": 1234}, "cpuprofile": map[string]any{"enabled": false, "file": "c.log"}, "memprofile": map[string]any{"enabled": false, "file": "m.log"}}},
 		pool(map[string]any{"gun": fullGun("http"), "rps-per-instance": true, "discard_overflow": false,
-			"ammo":   map[string]any{"type": "uri", "file": "/c17/ammo.uri", "limit": 3, "passes": 2, "headers": []any{"[A: b]"}, "preload": true, "chosencases": []any{"t"}, "continueonerror": true, "maxammosize": 1000},
-			"result": map[string]any{"type": "phout", "destination": "/c17/o.phout", "id": true, "flush-time": "1s", "sample-queue-size": 100, "buffer-size": "8KB"},
-			"rps":    []any{map[string]any{"type": "line", "from": 1, "to": 5, "duration": "2s"}, map[string]any{"type": "const", "ops": 5, "duration": "1s"}, map[string]any{"type": "step", "from": 1, "to": 3, "step": 1, "duration": "1s"}},
+			"ammo":    map[string]any{"type": "uri", "file": "/c17/ammo.uri", "limit": 3, "passes": 2, "headers": []any{"[A: b]"}, "preload": true, "chosencases": []any{"t"}, "continueonerror": true, "maxammosize": 1000},
+			"result":  map[string]any{"type": "phout", "destination": "/c17/o.phout", "id": true, "flush-time": "1s", "sample-queue-size": 100, "buffer-size": "8KB"},
+			"rps":     []any{map[string]any{"type": "line", "from": 1, "to": 5, "duration": "2s"}, map[string]any{"type": "const", "ops": 5, "duration": "1s"}, map[string]any{"type": "step", "from": 1, "to": 3, "step": 1, "duration": "1s"}},
 			"startup": map[string]any{"type": "instance_step", "from": 1, "to": 3, "step": 1, "stepduration": "1s"}}))
 	add(nil, pool(map[string]any{"gun": fullGun("connect"),
 		"ammo":    map[string]any{"type": "raw", "file": "/c17/ammo.raw", "middlewares": []any{map[string]any{"type": "header/date", "location": "UTC", "headerName": "Date"}}},
@@ -941,6 +982,7 @@ func main() {
 	_ = vkit.WriteMemAt("/c17/gscn.yaml", []byte("calls:\n  - name: c\n    call: target.TargetService.Hello\n    payload: '{}'\nscenarios:\n  - name: s\n    requests: [c]\n"))
 
 	unknownKeys(res, aux)
+	requiredKeys(res)
 	for _, c := range comps() {
 		wrongAndBad(res, c, propFile)
 		for i, n := 0, vkit.N(25, 600); i < n; i++ {
